@@ -342,6 +342,10 @@ func runC14(c *Ctx, r *Report, tier string) {
 					switch fn {
 					case "Name":
 						r.Check(strings.HasPrefix(t, "call:strings.TrimSpace(before("+lineT) && strings.HasSuffix(t, `, "="))`), "CLASSIFY", fname, "entry name is the trimmed text before the first '='", c.ipos(st), "TrimSpace(before(line, \"=\"))", "name is "+trunc(t, 120))
+						// `= value` is a malformed line: an entry is recorded only under a non-empty name (an empty
+						// one would match every option without an ini-name tag, a field name or a long name)
+						_, ne := c.Requires(ri, isInstr(st), litIs("nonempty("+t+")", true), nil)
+						r.Check(ne, "CLASSIFY", fname, "entries have a non-empty name", c.ipos(st), "REQ(name ≠ \"\")", "a line `= value` is recorded as an entry with an empty name and applied to the first option that has no ini-name tag, instead of being reported with its line number")
 					case "Value":
 						okV := strings.Contains(t, "call:strings.TrimSpace(after("+lineT)
 						r.Check(okV, "CLASSIFY", fname, "entry value is the trimmed text after the first '=' (unquoted when quoted)", c.ipos(st), "TrimSpace(after(line, \"=\")) or its strconv.Unquote", "value is "+trunc(t, 160))
@@ -390,6 +394,18 @@ func runC14(c *Ctx, r *Report, tier string) {
 			}
 		}
 		r.Check(ok, "LONGLINE", rname, "line is extended only by append(line, chunk...)", c.ipos(acc), "every back edge carries append(line, <chunk of this ReadLine>...): chunks are copied, none is kept by reference", strings.Join(why, "; "))
+		// a failing return throws away nothing that was read: with chunks accumulated, end of input is the
+		// end of the line, not an error (a last line of exactly k·bufsize bytes without a newline)
+		for _, ret := range returnsOf(rfl) {
+			if isConstNil(c.resolve(ret.Results[1])) {
+				continue
+			}
+			_, ok := c.Requires(rfl, isInstr(ret), anyLit(
+				func(l Lit) bool { return !l.Pos && strings.HasPrefix(l.Term, "nonnil(phi{") },
+				func(l Lit) bool { return !l.Pos && strings.HasPrefix(l.Term, "eq(") && strings.Contains(l.Term, "io.EOF") },
+			), nil)
+			r.Check(ok, "LONGLINE", rname, "an error does not discard accumulated chunks", c.ipos(ret), "failing return REQ(line == nil ∨ err ≠ io.EOF)", "when the input ends right after a full buffer the chunks read so far are dropped with the EOF: the last line is lost")
+		}
 		for _, ret := range returnsOf(rfl) {
 			if !isConstNil(c.resolve(ret.Results[1])) {
 				continue
